@@ -14,3 +14,71 @@ Definition norm_words (x : pystr) : list pystr :=
   map py_strip (filter (fun w => nonempty (py_strip w)) (py_split_on SP (replace_char NBSP SP x))).
 
 Definition norm (x : pystr) : pystr := py_join [SP] (norm_words x).
+
+(** * XML branch: the meaning of the stylesheet on the infoset
+
+    normalize.py:62-65 replaces the raw U+00A0 characters of the document string by spaces,
+    parses it, runs the XSLT stylesheet [normalize_whitespace] (libxslt) and serialises the
+    result (libxml2).  Parser, XSLT engine and serialiser are not modelled; [norm_xml] is what
+    the stylesheet MEANS on the parsed tree (template priorities: the two text() templates
+    beat node(); the later [@*] template beats the [@*] alternative of the identity template):
+      - [@*|node()]: identity copy, attributes first, then children;
+      - [@*]: the attribute is re-created with value [normalize-space(translate(., NBSP, ' '))];
+      - [text()[not(ancestor::P1 or ... or ancestor::Pn)]]: replaced by
+        [normalize-space(translate(., NBSP, ' '))] (an empty result creates no text node);
+      - [text()] (priority 0, i.e. the text nodes WITH a protected ancestor): replaced by
+        [translate(., NBSP, ' ')].
+    The string-level replace only performs part of the same translation earlier (it misses
+    character references), so on the infoset of the ORIGINAL document the result is
+    [xslt_tr false root].  Names are opaque strings (an unprefixed XPath name test matches
+    elements in no namespace only; the harness uses expanded names). *)
+Inductive xnode : Type :=
+| XE (name : pystr) (attrs : list (pystr * pystr)) (kids : list xnode)
+| XT (text : pystr).
+
+(** XPath 1.0 / XML whitespace: #x20 | #x9 | #xD | #xA *)
+Definition is_xml_space (c : N) : bool := (c =? 32)%N || (c =? 9)%N || (c =? 13)%N || (c =? 10)%N.
+
+(** XPath [normalize-space]: strip, and collapse every whitespace run into one space *)
+Definition xnorm (x : pystr) : pystr := py_join [SP] (filter nonempty (split_by is_xml_space x)).
+
+(** [translate(., '&#xA0;', ' ')] *)
+Definition tr (x : pystr) : pystr := replace_char NBSP SP x.
+
+Section Xml.
+  Variable protected : list pystr.    (* the ancestor names of the text() template; from the stylesheet *)
+
+  Definition is_protected (name : pystr) : bool := smem name protected.
+
+  (** the stylesheet applied to one node; [anc] = some ancestor element is protected.
+      Returns the list of result nodes (a text node may vanish). *)
+  Fixpoint xslt_tr (anc : bool) (n : xnode) {struct n} : list xnode :=
+    match n with
+    | XT x => if anc then [XT (tr x)]
+              else match xnorm (tr x) with [] => [] | y => [XT y] end
+    | XE name attrs kids =>
+        [XE name (map (fun kv => (fst kv, xnorm (tr (snd kv)))) attrs)
+            (flat_map (xslt_tr (anc || is_protected name)) kids)]
+    end.
+
+  (** normalize(doc, is_xml=True) on the document element *)
+  Definition norm_xml (root : xnode) : list xnode := xslt_tr false root.
+
+  (** ** factorisation used by the proofs (Proofs/C20_Xml.v: [xslt_tr anc n = xslt anc (nbsp_x n)]):
+      U+00A0 -> U+0020 everywhere, then the stylesheet without [translate] *)
+  Fixpoint xslt (anc : bool) (n : xnode) {struct n} : list xnode :=
+    match n with
+    | XT x => if anc then [XT x]
+              else match xnorm x with [] => [] | y => [XT y] end
+    | XE name attrs kids =>
+        [XE name (map (fun kv => (fst kv, xnorm (snd kv))) attrs)
+            (flat_map (xslt (anc || is_protected name)) kids)]
+    end.
+
+  Fixpoint nbsp_x (n : xnode) : xnode :=
+    match n with
+    | XT x => XT (tr x)
+    | XE name attrs kids =>
+        XE name (map (fun kv => (fst kv, tr (snd kv))) attrs) (map nbsp_x kids)
+    end.
+End Xml.
